@@ -12,7 +12,6 @@ package kv
 import (
 	"bytes"
 	"context"
-	"sync"
 
 	"github.com/synnaxlabs/aspen/internal/node"
 	"github.com/synnaxlabs/freighter"
@@ -101,17 +100,16 @@ func runRecovery(ctx context.Context, cfg Config) error {
 	nodes := cfg.Cluster.Nodes()
 	sCtx := signal.Wrap(ctx, signal.WithInstrumentation(cfg.Instrumentation))
 	cfg.L.Info("recovering lost key-value operations", zap.Int("peer_node_count", len(nodes)-1))
-	// Peers are contacted in parallel, but what they send is applied one peer at a time:
-	// the supersedes check reads committed state, so two transactions open at once would
-	// each accept their version of a key and the one committing last would win, even
-	// when it is the older.
-	var applyMu sync.Mutex
+	// Peers are contacted in parallel, but what they send is applied one peer at a time,
+	// and not while the gossip-ingress segment applies a message: the supersedes check
+	// reads committed state, so two transactions open at once would each accept their
+	// version of a key and the one committing last would win, even when it is the older.
 	for _, n := range nodes {
 		if n.Key == cfg.Cluster.HostKey() {
 			continue
 		}
 		sCtx.Go(func(ctx context.Context) error {
-			return runSingleNodeRecovery(ctx, cfg, n, &applyMu)
+			return runSingleNodeRecovery(ctx, cfg, n)
 		}, signal.WithKeyf("node_%v", n.Key))
 	}
 	err := sCtx.Wait()
@@ -147,7 +145,6 @@ func runSingleNodeRecovery(
 	ctx context.Context,
 	cfg Config,
 	node node.Node,
-	applyMu *sync.Mutex,
 ) error {
 	hw, err := loadHighWater(ctx, cfg)
 	if err != nil {
@@ -161,8 +158,7 @@ func runSingleNodeRecovery(
 	if err = stream.Send(RecoveryRequest{HighWater: hw}); err != nil {
 		return err
 	}
-	applyMu.Lock()
-	defer applyMu.Unlock()
+	defer cfg.lockApply()()
 	return kv.WithTx(ctx, cfg.Engine, func(tx kv.Tx) error {
 		count := 0
 		for {
